@@ -211,6 +211,14 @@ func (w *World) Inject(n *Node, nic tcpip.NICID, proto tcpip.NetworkProtocolNumb
 	w.Settle()
 }
 
+// InjectSplit delivers data as two views cut at byte position at (0 < at < len(data)).
+func (w *World) InjectSplit(n *Node, nic tcpip.NICID, proto tcpip.NetworkProtocolNumber, data []byte, at int, srcMAC, dstMAC tcpip.LinkAddress) {
+	p := n.Ports[nic]
+	views := []buffer.View{buffer.NewViewFromBytes(data[:at]), buffer.NewViewFromBytes(data[at:])}
+	p.disp.DeliverNetworkPacket(p, srcMAC, dstMAC, proto, buffer.NewVectorisedView(len(data), views))
+	w.Settle()
+}
+
 // chunked splits a packet into views the way the repository's fd-based endpoint reads
 // frames (buffers of 128, 256, 256, 512, 1024, ... bytes), so large packets arrive as
 // multi-view vectorised views.
